@@ -45,6 +45,10 @@ def stages(tier, seed, bins):
         else:
             c["timesteps"] = rnd.choice([1, 2, 3, 5, 10])
         cases.append(c)
+    # sizes beyond any "small problem" switch an implementation may have (size-gated code paths, e.g. `if (N > 1000)`)
+    for N in ([1100] if tier != "thorough" else [1001, 1100, 1500]):
+        cases.append(base(rnd, mode="le", method="le", N=N, D=3, td=2, k=10, data="swiss", width=10.0, nm="covertree", em="dense", timeout=1800, ticks=0))
+        cases.append(base(rnd, mode="dm", method="dm", N=N, D=3, td=2, data="gauss", width=2.0, timesteps=2, em="dense", timeout=1800, ticks=0))
     return [dict(name="spec", exe=bins["spectral"], cases=finish(cases, "e"), timeout=300)]
 
 
